@@ -41,8 +41,8 @@ var c01Excluded = map[string]string{
 	"netutil.AddrError.Unwrap": "field accessor", "netutil.LabelError.Unwrap": "field accessor", "netutil.LengthError.Error": "formatting only (fmt stubbed)", "netutil.RuneError.Error": "formatting only (fmt stubbed)",
 	"hostsfile.DefaultHostsPaths": "file system", "hostsfile.Parse": "driven by the C08 harness (any panic there is reported under C08)",
 	"hostsfile.DefaultStorage.Add": "driven by the C08 harness", "hostsfile.DefaultStorage.RangeNames": "driven by the C08 harness", "hostsfile.DefaultStorage.RangeAddrs": "driven by the C08 harness",
-	"timeutil.Duration.String": "needs integer-mode encoding of 64-bit division (C14 sub-claim); not driven by C01", "timeutil.Duration.MarshalText": "same as Duration.String",
-	"timeutil.Duration.UnmarshalText": "time.ParseDuration uses floating point on symbolic operands; not driven by C01",
+	"timeutil.Duration.String": "driven by the C14 Duration harnesses on a one-byte-symbolic family (any panic there is reported under C14)", "timeutil.Duration.MarshalText": "same as Duration.String",
+	"timeutil.Duration.UnmarshalText": "driven by the C14 Duration harnesses on texts produced by String (arbitrary texts go through time.ParseDuration floating point, not modelled)",
 	"timeutil.NewConstSchedule": "no text/bytes/IP input", "timeutil.NewCronSchedule": "no text input", "timeutil.NewRandomizedSchedule": "no text input",
 	"timeutil.ConstSchedule.UntilNext": "no text input", "timeutil.CronSchedule.UntilNext": "no text input", "timeutil.RandomizedSchedule.UntilNext": "no text input",
 	"timeutil.SystemClock.Now": "clock", "timeutil.SystemClock.After": "clock",
